@@ -969,7 +969,7 @@ def run(prop, tier):
         nvar = 1 if quick else 3
         nodes = {}
         for _, fmt, stream, kinds in pps:
-            for w in range(nvar if len(stream) < 4 else 2):
+            for w in range(nvar if len(stream) < 4 else 1):
                 lines = []
                 for k in range(len(stream)):
                     lrng = random.Random("%d|%d|%s" % (SEED, w, "/".join(stream[:k + 1])))
@@ -986,7 +986,7 @@ def run(prop, tier):
 
         # (b2) the command itself as a subprocess with binary stdin: all short streams and a seeded sample of the longest
         crng = random.Random(SEED + 4)
-        cli_keys = [k for k in keys if k[2] == 0 and (len(k[1]) < ml or crng.randrange(32 if quick else 8) == 0)]
+        cli_keys = [k for k in keys if k[2] == 0 and (len(k[1]) < ml or crng.randrange(32 if quick else 16) == 0)]
 
         def cli(key):
             n = nodes[key]
